@@ -693,3 +693,64 @@ package client
 //@     invariant forall k int :: 0 <= k && k < len(parents) ==> parents[k].ID == un.Parent
 //@     modifies parents
 //@     decreases len(parents) - rangeindex
+
+// ---- node.go: export / import (C15; the end-to-end comparison is the bounded leg) ----------------------------------
+// exportNodesHelper, per node: key "0" is written as "" and nothing else of a point changes (loops 1, 2); the in-place
+// filter keeps exactly the edge points that are not "tombstone with value 0", in order (loop 3: the invariants are the
+// claim, relative to the list before the loop); the recursion visits the node's non-deleted children and terminates.
+//@ spec func dropped(p data.Point) bool = p.Type == "tombstone" && p.Value == 0.0
+//@ spec func keyHidden(a data.Point, b data.Point) bool = a.Type == b.Type && ((b.Key == "0" && a.Key == "") || (b.Key != "0" && a.Key == b.Key)) && bits64(a.Value) == bits64(b.Value) && a.Text == b.Text && a.Tombstone == b.Tombstone && a.Time == b.Time && a.Origin == b.Origin && sameSlice(a.Data, b.Data)
+//@ func exportNodesHelper
+//@   props C15
+//@   local nc *nats.Conn#1
+//@   local node *data.NodeEdgeChildren#1
+//@   local i int#1
+//@   local children []data.NodeEdge#1
+//@   requires node != nil && busAcyclic(nc)
+//@   modifies node, allof(data.Point), allof(data.NodeEdgeChildren), state(nc)
+//@   decreases busRank(nc, node.ID)
+//@   ensures [C15] busAcyclic(nc) && treeKept(nc) && node.ID == old(node.ID)
+//@   loop 1:
+//@     invariant -1 <= rangeindex && rangeindex < len(node.Points) || rangeindex == -1
+//@     invariant node.ID == old(node.ID) && sameSlice(node.Points, preloop(node.Points)) && sameSlice(node.EdgePoints, preloop(node.EdgePoints))
+//@     invariant [C15] key-0-hidden: forall k int :: 0 <= k && k <= rangeindex ==> keyHidden(node.Points[k], preloop(node.Points[k]))
+//@     invariant [C15] forall k int :: rangeindex < k && k < len(node.Points) ==> node.Points[k] == preloop(node.Points[k])
+//@     modifies node.Points
+//@     decreases len(node.Points) - rangeindex
+//@   loop 2:
+//@     invariant -1 <= rangeindex && rangeindex < len(node.EdgePoints) || rangeindex == -1
+//@     invariant node.ID == old(node.ID) && sameSlice(node.EdgePoints, preloop(node.EdgePoints))
+//@     invariant [C15] key-0-hidden: forall k int :: 0 <= k && k <= rangeindex ==> keyHidden(node.EdgePoints[k], preloop(node.EdgePoints[k]))
+//@     invariant [C15] forall k int :: rangeindex < k && k < len(node.EdgePoints) ==> node.EdgePoints[k] == preloop(node.EdgePoints[k])
+//@     modifies node.EdgePoints
+//@     decreases len(node.EdgePoints) - rangeindex
+//@   loop 3:
+//@     invariant -1 <= rangeindex && rangeindex < len(node.EdgePoints) || rangeindex == -1
+//@     invariant node.ID == old(node.ID) && sameSlice(node.EdgePoints, preloop(node.EdgePoints)) && 0 <= i && i <= rangeindex + 1
+//@     invariant [C15] kept-are-undropped-in-order: forall a int :: 0 <= a && a < i ==> (exists b int :: a <= b && b <= rangeindex && node.EdgePoints[a] == preloop(node.EdgePoints[b]) && !dropped(preloop(node.EdgePoints[b])))
+//@     invariant [C15] every-undropped-kept: forall b int :: 0 <= b && b <= rangeindex && !dropped(preloop(node.EdgePoints[b])) ==> (exists a int :: 0 <= a && a < i && a <= b && node.EdgePoints[a] == preloop(node.EdgePoints[b]))
+//@     invariant [C15] forall b int :: rangeindex < b && b < len(node.EdgePoints) ==> node.EdgePoints[b] == preloop(node.EdgePoints[b])
+//@     modifies node.EdgePoints
+//@     decreases len(node.EdgePoints) - rangeindex
+//@   loop 4:
+//@     invariant -1 <= rangeindex && rangeindex < len(children) || rangeindex == -1
+//@     invariant node != nil && node.ID == old(node.ID) && busAcyclic(nc) && treeKept(nc)
+//@     invariant forall k int :: 0 <= k && k < len(children) ==> isChild(nc, node.ID, children[k].ID)
+//@     invariant refOf(node.Children) == refOf(preloop(node.Children)) || sinceLoop(node.Children)
+//@     modifies node, allof(data.Point), allof(data.NodeEdgeChildren), state(nc)
+//@     decreases len(children) - rangeindex
+
+// checkIDs (identifier preservation): accepted only if the parent is given, the node hangs under it, no id is blank,
+// and the same holds for every child under its node.
+// children lists are well-founded (values built by the YAML decoder are finite trees): treeH is a height function
+//@ spec func treeH(n data.NodeEdgeChildren) int
+//@ axiom tree_height: forall n data.NodeEdgeChildren, k int :: triggers(treeH(n.Children[k])) ==> (0 <= k && k < len(n.Children) ==> 0 <= treeH(n.Children[k]) && treeH(n.Children[k]) < treeH(n))
+//@ func checkIDs
+//@   props C15
+//@   local node data.NodeEdgeChildren#1
+//@   local parent string#1
+//@   decreases treeH(node)
+//@   ensures [C15] res0 == nil ==> parent != "" && node.Parent == parent && node.ID != ""
+//@   loop 1:
+//@     invariant -1 <= rangeindex && rangeindex < len(node.Children) || rangeindex == -1
+//@     decreases len(node.Children) - rangeindex
